@@ -497,6 +497,9 @@ type inputs struct {
 	nodeIdx   map[proto.Message]nodeRef
 	resNodes  [][]proto.Message
 	vars      []any
+	// callerMsgs: every message the caller supplied through an environment value that is not an
+	// element of an input resource (e.g. a ContainedResource wrapper it built itself)
+	callerMsgs map[proto.Message]bool
 	// evalOptCache, when non-nil, makes EnvVariable option values be reused between Evaluate calls
 	evalOptCache map[string]fhirpath.EvaluateOption
 }
@@ -609,6 +612,23 @@ func buildInputs(c *Case) (*inputs, error) {
 			return nil, err
 		}
 		r.vars[i] = v
+	}
+	r.callerMsgs = map[proto.Message]bool{}
+	var note func(v any)
+	note = func(v any) {
+		switch x := v.(type) {
+		case system.Collection:
+			for _, it := range x {
+				note(it)
+			}
+		case proto.Message:
+			if _, isNode := r.nodeIdx[x]; !isNode {
+				r.callerMsgs[x] = true
+			}
+		}
+	}
+	for _, v := range r.vars {
+		note(v)
 	}
 	return r, nil
 }
@@ -786,6 +806,17 @@ func execOp(op *Op, oc *opCtx, p *compiled, in0 *inputs, entryOverride *time.Tim
 		} else {
 			o1 = canonCollection(pidx, c1)
 		}
+		// the caller edits the copies it was given (messages that are not elements of its input) ...
+		if err1 == nil {
+			for _, it := range c1 {
+				if m, ok := it.(proto.Message); ok {
+					if _, isNode := pidx[m]; !isNode {
+						scribble(m.ProtoReflect(), pidx)
+					}
+				}
+			}
+		}
+		// ... and its input
 		for _, r := range priv {
 			callerMutates(r)
 		}
@@ -853,6 +884,19 @@ func callerMutates(r fhir.Resource) {
 			_ = a.MarshalFrom(cr.Interface())
 		}
 	}
+}
+
+// scribble overwrites the string values inside a message the caller was handed as a result
+// (never anything that is an element of the input).
+func scribble(m protoreflect.Message, input map[proto.Message]nodeRef) {
+	walkMessages(m, func(x protoreflect.Message) {
+		if _, isNode := input[x.Interface()]; isNode {
+			return
+		}
+		if vf := x.Descriptor().Fields().ByName("value"); vf != nil && vf.Kind() == protoreflect.StringKind && isPrimitiveDesc(x.Descriptor()) {
+			x.Set(vf, protoreflect.ValueOfString("edited-by-the-caller"))
+		}
+	})
 }
 
 func execPatch(op *Op, p *compiled, resources []fhir.Resource, opts []fhirpath.EvaluateOption, res opResult) opResult {
